@@ -8,19 +8,19 @@ namespace Ems
 open Ems.NArr
 
 /-- the face mask as the mask dataset holds it: a variable over the grid's two dimensions -/
-def maskArr (ydim xdim : String) (m : Clip.Mask) : NArr Bool :=
+def faceMaskVar (ydim xdim : String) (m : Clip.Mask) : NArr Bool :=
   NArr.ofFn [(ydim, m.ny), (xdim, m.nx)] fun e =>
     match e.get ydim, e.get xdim with
     | some j, some i => some (m.get j i)
     | _, _ => none
 
-theorem maskArr_names (ydim xdim : String) (m : Clip.Mask) : (maskArr ydim xdim m).names = [ydim, xdim] := rfl
+theorem faceMaskVar_names (ydim xdim : String) (m : Clip.Mask) : (faceMaskVar ydim xdim m).names = [ydim, xdim] := rfl
 
 /-- reading the mask variable at an environment is reading the array at its grid position -/
-theorem maskArr_get (ydim xdim : String) (hne : ydim ≠ xdim) (m : Clip.Mask) (e : Env) (j i : Nat)
+theorem faceMaskVar_get (ydim xdim : String) (hne : ydim ≠ xdim) (m : Clip.Mask) (e : Env) (j i : Nat)
     (hj : e.get ydim = some j) (hi : e.get xdim = some i) (hjn : j < m.ny) (hin : i < m.nx) :
-    (maskArr ydim xdim m).get? e = some (m.get j i) := by
-  unfold maskArr
+    (faceMaskVar ydim xdim m).get? e = some (m.get j i) := by
+  unfold faceMaskVar
   have hidx : e.index ([(ydim, m.ny), (xdim, m.nx)].map (·.1)) = some [j, i] := by
     simp [Env.index, allSome, hj, hi]
   have hr : InRange ([(ydim, m.ny), (xdim, m.nx)].map (·.2)) [j, i] := by
